@@ -1430,6 +1430,29 @@ func runSchedCex(a *args, r *rand.Rand, root string, i int) {
 	env := newSysEnv(filepath.Join(root, fmt.Sprintf("cex%d", i)), prog)
 	os.MkdirAll(env.dir, 0755)
 	a.emit(map[string]any{"ev": "prog", "prog": prog, "seg": seg, "scenario": i})
+	if i%2 == 1 {
+		// shape B: a complete run of the real output, then the LOWER store's snapshots are pruned (its module directory's
+		// states are gone) while the higher store keeps its own and the outputs are dropped: stage 1 looks complete from the
+		// files, stage 0 has to be rebuilt, and no job of the mapper stage may start before that
+		n := uint64(3)
+		c1 := runCfg{Prod: true, Start: 0, Stop: n * seg, LibOK: true, Lib: (n + 2) * seg, Seg: seg, Workers: 2, Label: "schedcex/prepare", Out: "out"}
+		emitRun(a, env, c1, "", true)
+		for _, f := range listFiles(env.dir) {
+			parts := strings.Split(f, "/")
+			if len(parts) < 4 {
+				continue
+			}
+			name := env.hashes[parts[1]]
+			if (name == "st1" && parts[2] == "states") || (name == "out" && parts[2] == "outputs") || (name == "st1" && parts[2] == "outputs" && r.Intn(2) == 0) {
+				os.Remove(filepath.Join(env.dir, f))
+			}
+		}
+		c2 := runCfg{Prod: true, Start: int64(seg) + int64(r.Intn(int(seg))), Stop: n * seg, LibOK: true, Lib: (n + 2) * seg, Seg: seg, Workers: 1 + r.Intn(3), Order: r.Int63n(1<<30) + 1,
+			MergeHold: []int{0, 3}[r.Intn(2)], Label: "schedcex/request", Out: "out"}
+		emitRun(a, env, c2, "", true)
+		os.RemoveAll(env.dir)
+		return
+	}
 	// request 1: mapper out1 over the first two segments: leaves st1's snapshots at the end of segment 0 and 1
 	c1 := runCfg{Prod: true, Start: 0, Stop: 2 * seg, LibOK: true, Lib: 5 * seg, Seg: seg, Workers: 2, Label: "schedcex/prepare", Out: "out1"}
 	emitRun(a, env, c1, "", true)
